@@ -1095,6 +1095,21 @@ theorem skipWs_nonws (c : Char) (r : List Char) (p : Nat) (h : isWs c = false) :
     skipWs (c :: r) p = p := by
   simp [skipWs, h]
 
+/-- the title part hands the `href` through unchanged -/
+theorem titlePart_href (dec : List Char → List Char) (src : List Char) (max p : Nat)
+    (href h' : Option (List Nat)) (title : Option (List Char)) (p4 : Nat)
+    (hst : inlineTitlePart dec src max href p = .ok (h', title, p4)) : h' = href := by
+  unfold inlineTitlePart at hst
+  split at hst
+  · cases hst
+  · simp only at hst
+    split at hst
+    · cases hst
+    · cases hst; rfl
+    · split at hst
+      · cases hst
+      · cases hst; rfl
+
 /-- after an ACCEPTED destination the stage reports that `href` -/
 theorem afterDest_accepted (dec : List Char → List Char) (src : List Char) (p max : Nat) (res : Frag)
     (u : List Nat) (hacc : inlineDest dec res.raw = some u) (href : Option (List Nat))
@@ -1102,15 +1117,7 @@ theorem afterDest_accepted (dec : List Char → List Char) (src : List Char) (p 
     (hst : inlineAfterDest dec src p max res = .ok (href, title, p4)) : href = some u := by
   unfold inlineAfterDest at hst
   simp only [hacc] at hst
-  unfold inlineTitlePart at hst
-  split at hst
-  · cases hst
-  · split at hst
-    · cases hst
-    · cases hst; rfl
-    · split at hst
-      · cases hst
-      · cases hst; rfl
+  exact titlePart_href dec src max res.pos (some u) href title p4 hst
 
 /-- after a REJECTED destination the scan cannot reach a closing `)` -/
 theorem afterDest_rejected (dec : List Char → List Char) (hdec : DecOk dec) (src : List Char)
